@@ -48,6 +48,7 @@ def dispatch (op : String) (f : List Text) : String :=
     | "gha" => s!"{specGhaSat spec v} T"
     | _ => "UNKNOWN-ECO"
   | "c02.ast", [spec] => s!"{C02Ast.sameReading spec} {specNpmFrag spec}"
+  | "c02.ast.crates", [spec] => s!"{C02Ast.sameReadingCrates spec} {tf (Spec.CargoReq.inFrag spec)}"
   | "spec.npm.sat", [spec, v] => specNpmSat spec v
   | "spec.npm.frag", [spec] => specNpmFrag spec
   | "spec.crates.sat", [spec, v] => specCratesSat spec v
